@@ -30,7 +30,14 @@ type intScript struct {
 	StopPC int      // if non-zero: stop after the first non-idle unit that starts at this PC
 }
 
-var intROM = machine.BlankROM(0)
+// all NOPs, with RETI at the five interrupt vectors: a dispatched interrupt returns and the program goes on
+var intROM = func() []byte {
+	rom := machine.BlankROM(0)
+	for _, v := range []int{0x40, 0x48, 0x50, 0x58, 0x60} {
+		rom[v] = 0xd9
+	}
+	return rom
+}()
 
 type intRig struct {
 	m      *machine.Machine
@@ -365,6 +372,28 @@ func intGen(c *Ctx) {
 						s.Keys = []int{1 + rng.Intn(k+1)}
 					}
 					emit("halt", s)
+				}
+			}
+		}
+	}
+	if c.Want("halt2") {
+		// two HALTs in one program: the first with the master enable set while a request X is raised but not enabled
+		// (woken by Y, dispatched, RETI), the second with the enable clear after IF was cleared and X enabled, woken by X -
+		// whatever the first HALT remembered must not keep the second from waking
+		rng := c.Rand(409)
+		for x := 0; x < 5; x++ {
+			for y := 0; y < 5; y++ {
+				if x == y {
+					continue
+				}
+				for idle := 0; idle < 4; idle++ {
+					code := []int{0x3e, 1 << uint(x), 0xe0, 0x0f, 0x3e, 1 << uint(y), 0xe0, 0xff, 0xfb, 0x00, 0x76, 0x00,
+						0xf3, 0xaf, 0xe0, 0x0f, 0x3e, 1 << uint(x), 0xe0, 0xff, 0x76, 0x04, 0x0c, 0x14}
+					// cycles: LD 2, LDH 3, LD 2, LDH 3, EI 1, NOP 1, HALT 1 = 13; idle; dispatch 6 + RETI 4; NOP 1; DI 1, XOR 1, LDH 3, LD 2, LDH 3, HALT 1
+					t1 := 13 + 1 + idle
+					t2 := t1 + 6 + 4 + 1 + 11 + 2 + idle
+					s := &intScript{Regs: intRegs(rng), Code: code, IME: 0, IE: 0, IF: 0, Units: 24, Raises: [][2]int{{t1, y}, {t2, x}}}
+					emit("halt2", s)
 				}
 			}
 		}
